@@ -38,6 +38,7 @@ type Frame struct {
 	SrcMAC tcpip.LinkAddress
 	At     time.Duration // virtual emission time
 	Seq    int           // global emission ordinal
+	held   [][]byte      // the buffers the stack handed to the link (Data is the copy taken at that moment)
 }
 
 // wirePort is the harness LinkEndpoint.
@@ -68,7 +69,11 @@ func (p *wirePort) WritePacket(r *stack.Route, hdr buffer.Prependable, payload b
 	if p.w == nil {
 		return nil // a leftover goroutine of a dead world
 	}
-	p.w.emit(&Frame{From: p.node, NIC: p.nic, Proto: proto, Data: b, DstMAC: dst, SrcMAC: p.linkAddr})
+	held := [][]byte{hdr.View()}
+	for _, v := range payload.Views() {
+		held = append(held, v)
+	}
+	p.w.emit(&Frame{From: p.node, NIC: p.nic, Proto: proto, Data: b, DstMAC: dst, SrcMAC: p.linkAddr, held: held})
 	return nil
 }
 
@@ -91,6 +96,24 @@ type World struct {
 }
 
 var lastWorld *World
+
+// AliasErr reports a frame whose buffers were modified after the stack handed them to the
+// link layer. A link endpoint may queue what it is given without copying (the repository's
+// channel endpoint does), so the stack must not touch those bytes again.
+func (w *World) AliasErr() error {
+	w.mu.Lock()
+	defer w.mu.Unlock()
+	for _, f := range w.All {
+		off := 0
+		for _, h := range f.held {
+			if off+len(h) > len(f.Data) || !bytes.Equal(h, f.Data[off:off+len(h)]) {
+				return fmt.Errorf("frame #%d was modified after it was handed to the link layer: sent %x, its buffers now hold %x", f.Seq, f.Data, bytes.Join(f.held, nil))
+			}
+			off += len(h)
+		}
+	}
+	return nil
+}
 
 func NewWorld() *World {
 	// The repository keeps every registered link endpoint in a global map for ever; cut the
